@@ -101,8 +101,9 @@ def derivatives_hydraulic_comp_numba(node_pit, branch_pit, lambda_, der_lambda, 
 
 @jit((float64[:, :], int32[:], int32[:]), nopython=True, cache=False)
 def _make_lookups(branch_pit, to_nodes, from_nodes):
-    max_val_to = np.max(to_nodes)
-    max_val_from = np.max(from_nodes)
+    # without any active branch (e.g. a feeder cut off from the rest) there is nothing to look up
+    max_val_to = np.max(to_nodes) if len(to_nodes) else -1
+    max_val_from = np.max(from_nodes) if len(from_nodes) else -1
     club_to = np.zeros(max_val_to + 1, dtype=bool)
     club_from = np.zeros(max_val_from + 1, dtype=bool)
     branches_flow = np.zeros_like(to_nodes, dtype=bool)
